@@ -25,10 +25,13 @@ class Formation(Harness):
                  F + "_find_neighbouring_candidates", F + "_find_neighbouring_protoclusters",
                  "antismash.common.secmet.features.candidate_cluster.structures:CandidateCluster.__init__",
                  "antismash.common.secmet.features.cdscollection:CDSCollection.__lt__"]
-    bound = ("Pn <= 3 (quick) / 4 (thorough) protoclusters (plus unit layouts of 5 / 7 protoclusters in which the two members of a hybrid pair have identical coordinates) with symbolic core inside symbolic extent, distinct products, every pattern "
-             "of 'shares a defining gene' over pairs (realised by a gene placed inside both cores), every supply order; linear records, "
-             "and circular records with one protocluster whose extent (and optionally core) spans the origin")
-    outside = "Pn > 4; more than one origin-spanning protocluster; equal products"
+    bound = ("Pn <= 3 free protoclusters (plus unit layouts of 4-5 protoclusters in which the two members of a hybrid pair have identical "
+             "coordinates: hybrid + two lone ones, two hybrids + one, and in the thorough tier lone-hybrid-lone and hybrid-lone-hybrid) with "
+             "symbolic core inside symbolic extent, distinct products, sharing patterns over pairs (quick: none, one pair, a chain; thorough: "
+             "all; realised by a gene placed inside both cores), three supply orders (all six for Pn <= 2); linear records, and circular "
+             "records with Pn <= 2 and one protocluster whose extent (and optionally core) spans the origin")
+    outside = ("four or more free protoclusters and three with an origin-spanning one (>= 10^5 paths per variant); more than one "
+               "origin-spanning protocluster; equal products")
     task_paths = 120
     stubs = ["Protocluster.__hash__ pinned to hash(product) so set iteration order is reproducible; other orders via renamed products"]
 
@@ -54,8 +57,28 @@ class Formation(Harness):
         return L.Or(opts) if opts else False
 
     def variants(self, tier):
+        if tier == "thorough":
+            # sized to minutes: everything of the quick tier, the remaining sharing patterns of three protoclusters, three free
+            # protoclusters under other names (other set iteration orders) and two further unit layouts. Four free protoclusters
+            # and three with an origin-spanning one cost >= 10^5 paths per variant and are reached through the unit layouts only.
+            out = self.variants("quick")
+            for share in (((0, 2),), ((1, 2),), ((0, 1), (0, 2)), ((0, 2), (1, 2)), ((0, 1), (0, 2), (1, 2))):
+                out.append({"pn": 3, "share": [list(p) for p in share], "circ": False, "shapes": ["s"] * 3,
+                            "names": ["p0", "p1", "p2"], "all_orders": False})
+            out.append({"pn": 3, "share": [], "circ": False, "shapes": ["s"] * 3, "names": ["p2", "p1", "p0"]})
+            for sizes in ([2, 1, 2], [1, 2, 1]):
+                twin, share, idx = [], [], 0
+                for size in sizes:
+                    twin.append(None)
+                    if size == 2:
+                        twin.append(idx)
+                        share.append([idx, idx + 1])
+                    idx += size
+                out.append({"pn": idx, "share": share, "circ": False, "shapes": ["s"] * idx, "names": ["p%d" % i for i in range(idx)],
+                            "twin": twin, "units": True, "tight": True})
+            return out
         out = []
-        pmax = 3 if tier == "quick" else 4
+        pmax = 3
         for pn in range(1, pmax + 1):
             pairs = list(itertools.combinations(range(pn), 2))
             share_sets = [()]
